@@ -164,11 +164,11 @@ def _sat(lo, hi, ne, wop, wc):
     if wop == "!=":
         return wc in ne or (lo is not None and wc < lo) or (hi is not None and wc > hi)
     if wop == "<":
-        return hi is not None and hi < wc
+        return hi is not None and (hi < wc or (hi == wc and wc in ne))
     if wop == "<=":
         return hi is not None and hi <= wc
     if wop == ">":
-        return lo is not None and lo > wc
+        return lo is not None and (lo > wc or (lo == wc and wc in ne))
     if wop == ">=":
         return lo is not None and lo >= wc
     return False
